@@ -6,7 +6,6 @@ import (
 	"fmt"
 	"strings"
 
-	"go.dedis.ch/onet/v3/network"
 )
 
 func unhex(s string) []byte {
@@ -38,9 +37,9 @@ func buildPayload(ps *PayloadSpec, ctx *genCtx) []byte {
 	var b []byte
 	if ps.Val != nil {
 		v := genValue(ps.Val, ctx)
-		mb, err := network.Marshal(v)
+		mb, err := canonical(v)
 		if err != nil {
-			panic(fmt.Sprintf("harness value does not marshal: %v", err))
+			panic(fmt.Sprintf("generated value has no encoding: %v", err))
 		}
 		b = append([]byte{}, mb...)
 	} else {
